@@ -118,7 +118,10 @@ def stmt_src(s, ind):
     if k == 'csleep':
         return p + 'csleep(%d);' % s[1]
     if k == 'asm':
-        return p + 'asm("%s");' % s[1]
+        t = s[1].replace('\\', '\\\\').replace('\n', '\\n').replace('\t', '\\t')
+        if len(s) > 2 and s[2] is not None:
+            return p + 'asm("%s", %d);' % (t, s[2])
+        return p + 'asm("%s");' % t
     if k == 'local':
         return p + '%s %s%s;' % (s[1], s[2], ' = ' + expr_src(s[3]) if s[3] is not None else '')
     raise ValueError(s)
@@ -171,8 +174,25 @@ class Gen:
                 self.function('f%d' % k)
         self.free_counters = list(self.counters) + ['X', 'Y']
         self.in_loop = 0
-        p.main = self.stmts(r.randrange(1, o['max_stmts']), 0)
+        head = []
+        self.flags_bait(head)
+        p.main = head + self.stmts(r.randrange(1, o['max_stmts']), 0)
         return p
+
+    def note_last_assigned(self, body):
+        """the global a function's last statement assigns (what the flags describe when it ends)"""
+        self.last_fn_assigned = None
+        if body and body[-1][0] == 'expr' and body[-1][1][0] == 'asg' and body[-1][1][1] == '=' and body[-1][1][2][0] == 'var':
+            v = body[-1][1][2][1]
+            if v in ('a', 'b', 'c', 'd'):
+                self.last_fn_assigned = v
+
+    def flags_bait(self, body):
+        """a function starting with a test of the variable the previously generated function ended on"""
+        v = getattr(self, 'last_fn_assigned', None)
+        if v and self.o.get('bait') and self.r.random() < 0.5:
+            cond = self.r.choice([('var', v), ('bin', '==', ('var', v), ('num', 0)), ('bin', '!=', ('var', v), ('num', 0))])
+            body.append(('if', cond, ('block', [('expr', ('asg', '=', ('var', self.r.choice(['a', 'b', 'c', 'd'])), ('num', 11)))]), None))
 
     def function(self, name):
         r = self.r
@@ -190,8 +210,12 @@ class Gen:
         # leaves open); procedures may write globals and are only called as statements
         nst = r.randrange(0, 3) if ret == 'void' else 0
         self._fn_callable = [f for f in callable_before if f[1] != 'void'] if ret != 'void' else callable_before
+        if ret == 'void':
+            self.flags_bait(body)
         for _ in range(nst):
             body.append(self.simple_stmt(0))
+        if self.o.get('asm_sized') and ret == 'void' and r.random() < 0.6:
+            body.append(self.asm_stmt(big=r.random() < 0.5))
         if ret != 'void':
             if r.random() < 0.3:
                 # two constant results: an early return and a different last one
@@ -212,6 +236,9 @@ class Gen:
                 body.append(('expr', ('call', f[0], [self.atom8() for _ in range(f[2])])))
             else:
                 body.append(('expr', ('asg', '=', ('var', r.choice(saved[0])), ('call', f[0], [self.atom8() for _ in range(f[2])]))))
+        if ret == 'void' and self.o.get('bait') and not self.o.get('asm_sized') and r.random() < 0.6:
+            body.append(('expr', ('asg', '=', ('var', r.choice(['a', 'b', 'c', 'd'])), ('var', r.choice(['a', 'b', 'c', 'd'])))))
+        self.note_last_assigned(body)
         self.uchars, self.free_counters = saved
         self._fn_callable = None
         self.p.funcs.append(dict(name=name, ret=ret, params=params, body=body,
@@ -340,8 +367,35 @@ class Gen:
                 return ('strobe', r.choice(self.hwregs))
             if kk < 0.9:
                 return ('csleep', r.choice([2, 3, 4, 5, 6, 7, 8, 9, 10]))
+            if self.o.get('asm_sized'):
+                return self.asm_stmt()
             return ('asm', 'nop')
         return ('expr', ('asg', '=', self.lv8(), self.expr8(1)))
+
+    def asm_stmt(self, big=False):
+                # tagged texts with declared sizes: one line, several lines, a leading line break,
+                # blocks big enough to push a branch out of range
+                r = self.r
+                self.asm_tag = getattr(self, 'asm_tag', 0) + 1
+                tag = 'tg%d' % self.asm_tag
+                form = 3 if big else r.randrange(6)
+                if form == 0:
+                    st = ('asm', 'nop ; ' + tag, None)
+                elif form == 1:
+                    st = ('asm', '\tLDA #1 ; %s\n\tNOP' % tag, 3)
+                elif form == 2:
+                    st = ('asm', '\n\tNOP ; %s\n\tNOP' % tag, 2)
+                elif form == 3:
+                    n = r.choice([40, 60, 100, 130])
+                    st = ('asm', '\tDS.B %d ; %s' % (n, tag), n)
+                elif form == 4:
+                    st = ('asm', ' \n\n\tNOP ; %s' % tag, 1)
+                else:
+                    st = ('asm', 'nop ; %s' % tag, 1)
+                if not hasattr(self.p, 'asm_decl'):
+                    self.p.asm_decl = {}
+                self.p.asm_decl[tag] = 3 if st[2] is None else st[2]
+                return st
 
     def stmt(self, depth):
         r = self.r
@@ -423,7 +477,29 @@ class Gen:
         reg = r.choice(['X', 'Y'])
         if self.in_loop and reg not in self.free_counters:
             reg = None
-        k = r.randrange(15)
+        k = r.randrange(18)
+        if k == 17 and reg:
+            # a constant comparison the optimiser can decide, then a change of the register as the very
+            # first thing of the body, then the constant again
+            k1, k2 = r.sample([0, 1, 3, 5, 200], 2)
+            inner = ('if', ('bin', r.choice(['==', '!=']), V(reg), N(k1)), ('block', [asg(u(), N(12))]), None)
+            return [asg(V(reg), N(k1)),
+                    ('if', ('bin', '!=', V(reg), N(k2)), ('block', [('expr', ('inc', r.choice(['x++', 'x--']), V(reg))), inner]), None)]
+        if k == 17:
+            k = r.randrange(13)
+        if k >= 15 and self.o['hw'] and self.hwregs:
+            # explicit hardware reads around something that invalidates the flags but not A, followed by
+            # a store and an indexed read: every load() must still be executed
+            v = r.choice([u(), N(5), V(r.choice(self.hwregs))]) if False else u()
+            mid = r.choice([('expr', ('inc', 'x++', V(reg))) if reg else ('csleep', 5), ('csleep', r.choice([5, 9, 10])),
+                            ('expr', ('inc', r.choice(['x++', 'x--']), u()))])
+            tail = []
+            if self.arrays or self.tables:
+                a = r.choice(self.arrays + self.tables)
+                tail = [asg(u(), ('idx', a, r.choice([V('X'), V('Y'), N(r.randrange(8))])))]
+            return [('load', v), mid, ('load', v), r.choice([('store', u()), ('strobe', r.choice(self.hwregs))])] + tail
+        if k >= 15:
+            k = r.randrange(13)
         if k >= 13:
             # an update immediately followed by a zero test of the same object (8 or 16 bits, or an
             # array element): the flags of the update must describe the whole object
